@@ -1,4 +1,4 @@
-import Orx.KS
+import Orx.KSFault
 import Orx.IW.Full
 /-! # Case files, the deterministic scheduler of FORMAT.md Â§2, trace rendering.
 This is the executable glue of the driver; the scheduling rule is the same as the harness's. -/
@@ -145,6 +145,11 @@ def parseCases (text : String) : List Case := Id.run do
         else if key = "adapt" then
           let a := match rest with | ["cloned"] => Adapt.cloned | ["copied"] => Adapt.copied | _ => Adapt.none
           cur := some { c with src := c.src.setAdapt a }
+        else if key = "droppanic" then
+          let k := rest.head?.bind String.toNat?
+          cur := some { c with src := match c.src with
+            | .ks ks => .ks { ks with dpanic := k }
+            | o => o }
         else if key = "mode" then
           cur := some { c with mode := if rest = ["debug"] then .debug else .release }
         else if key = "thread" then
@@ -235,7 +240,7 @@ def runSched {Ïƒ} (m : Machine Ïƒ) (frozen : List Nat) : Nat â†’ SchedState Ïƒ â
 def ksMachine (src : KSrc) (n : Nat) : Machine KS.Cfg :=
   { nThreads := n
     finished := fun c t => KS.finished (c.th t)
-    step := fun t c => KS.step src t c }
+    step := fun t c => KS.stepF src t c }
 
 def iwMachine (src : IWF.ISrc) (n : Nat) : Machine IWF.FCfg :=
   { nThreads := n
@@ -251,7 +256,7 @@ def runCase (c : Case) (fuel : Nat := 200000) : Array String Ã— Bool Ã— Nat :=
   | .ks src =>
     let m := ksMachine src n
     let s := runSched m c.frozen fuel { st := KS.init src (progFn c.progs), sched := c.sched }
-    let (_, oevs) := KS.owner src s.st c.owner
+    let (_, oevs) := KS.ownerF src s.st c.owner
     let lines := oevs.foldl (fun a e => a.push { who := none, ev := e }) s.lines
     (lines.map Line.str, s.stuck, s.steps)
   | .iw src =>
